@@ -92,16 +92,42 @@ func Alphabet(pc ref.PConfig) []ref.Cmd {
 	add(ref.Cmd{Name: "empty line", Op: "BAD", Steps: [][]byte{line("")}})
 	add(ref.Cmd{Name: "mangled", Op: "BAD", Steps: [][]byte{line("NOOPX")}})
 
-	b64 := func(s string) string { return base64.StdEncoding.EncodeToString([]byte(s)) }
-	add(ref.Cmd{Name: "AUTH ok", Op: "AUTH", Arg: "ONE", Auth: "ok", Steps: [][]byte{line("AUTH ONE " + b64("good"))}})
-	add(ref.Cmd{Name: "AUTH fail", Op: "AUTH", Arg: "ONE", Auth: "fail", Steps: [][]byte{line("AUTH ONE " + b64("bad"))}})
-	add(ref.Cmd{Name: "AUTH cancel", Op: "AUTH", Arg: "ONE", Auth: "cancel", Steps: [][]byte{line("AUTH ONE"), line("*")}})
-	add(ref.Cmd{Name: "AUTH bad base64", Op: "AUTH", Arg: "ONE", Auth: "badb64", Steps: [][]byte{line("AUTH ONE !!!")}})
-	add(ref.Cmd{Name: "AUTH no argument", Op: "AUTH", Auth: "noarg", Steps: [][]byte{line("AUTH")}})
+	for _, sc := range []struct {
+		name string
+		s    *ref.AuthScript
+	}{
+		{"AUTH ok", &ref.AuthScript{Mech: "ONE", N: 1, IR: octets("good")}},
+		{"AUTH fail", &ref.AuthScript{Mech: "ONE", N: 1, IR: octets("bad")}},
+		{"AUTH cancel", &ref.AuthScript{Mech: "ONE", N: 1, IR: ref.AuthResp{Absent: true}, Resps: []ref.AuthResp{{Wire: "*", Cancel: true}}}},
+		{"AUTH bad base64", &ref.AuthScript{Mech: "ONE", N: 1, IR: ref.AuthResp{Wire: "!!!", Bad: true}}},
+	} {
+		add(AuthCmd(sc.name, sc.s))
+	}
+	add(ref.Cmd{Name: "AUTH no argument", Op: "AUTH", Steps: [][]byte{line("AUTH")}})
 
 	add(ref.Cmd{Name: "STARTTLS", Op: "STARTTLS", Steps: [][]byte{line("STARTTLS")}})
 	add(ref.Cmd{Name: "QUIT", Op: "QUIT", Steps: [][]byte{line("QUIT")}})
 	return a
+}
+
+func octets(v string) ref.AuthResp {
+	if v == "" {
+		return ref.AuthResp{Wire: "=", Decoded: []byte{}}
+	}
+	return ref.AuthResp{Wire: base64.StdEncoding.EncodeToString([]byte(v)), Decoded: []byte(v)}
+}
+
+// AuthCmd builds the abstract command for a scripted AUTH exchange.
+func AuthCmd(name string, a *ref.AuthScript) ref.Cmd {
+	first := "AUTH " + a.Mech
+	if !a.IR.Absent {
+		first += " " + a.IR.Wire
+	}
+	steps := [][]byte{line(first)}
+	for _, r := range a.Resps {
+		steps = append(steps, line(r.Wire))
+	}
+	return ref.Cmd{Name: name, Op: "AUTH", Arg: a.Mech, AuthS: a, Steps: steps}
 }
 
 // ---- scripted SASL server ----------------------------------------------------
@@ -321,6 +347,22 @@ func histNames(alpha []ref.Cmd, hist []int) string {
 // runLockstep executes the history command by command on a fresh real server
 // and compares every step with the reference model.
 func runLockstep(prefix string, pc ref.PConfig, alpha []ref.Cmd, hist []int) *histResult {
+	return runLockstepOpt(prefix, pc, alpha, hist, nil)
+}
+
+// lockOpts tunes a lock-step run (used by C10's injection cases).
+type lockOpts struct {
+	// BeforeHandshake is called after a 220 reply to STARTTLS, before the
+	// client starts the TLS handshake.
+	BeforeHandshake func(l *h.Live)
+	// HandshakeMayFail: a failed handshake ends the run without a finding.
+	HandshakeMayFail bool
+	HandshakeFailed  bool
+	// Final is called at the end with the live connection and the backend.
+	Final func(l *h.Live, be *h.Backend, st ref.PState)
+}
+
+func runLockstepOpt(prefix string, pc ref.PConfig, alpha []ref.Cmd, hist []int, opts *lockOpts) *histResult {
 	res := &histResult{FailedAt: -1}
 	cfg, be := serverFor(pc)
 	var live *h.Live
@@ -347,7 +389,14 @@ func runLockstep(prefix string, pc ref.PConfig, alpha []ref.Cmd, hist []int) *hi
 				events := live.NewEvents()
 				replies, perr := ref.ParseReplies(out)
 				if c.Op == "STARTTLS" && perr == nil && len(replies) == 1 && replies[0].Code == 220 {
+					if opts != nil && opts.BeforeHandshake != nil {
+						opts.BeforeHandshake(live)
+					}
 					if err := live.StartTLSHandshake(); err != nil {
+						if opts != nil && opts.HandshakeMayFail {
+							opts.HandshakeFailed = true
+							break cmds
+						}
 						res.Finding = h.F(prefix+"-starttls-handshake", "history [%s]: TLS handshake after 220 failed: %v", histNames(alpha, hist[:hi+1]), err)
 						res.FailedAt = hi
 						break cmds
@@ -369,6 +418,17 @@ func runLockstep(prefix string, pc ref.PConfig, alpha []ref.Cmd, hist []int) *hi
 					res.FailedAt = hi
 					break cmds
 				}
+				if alt.HasChallenge {
+					want := ""
+					if len(alt.Challenge) > 0 {
+						want = base64.StdEncoding.EncodeToString(alt.Challenge)
+					}
+					if len(replies) != 1 || len(replies[0].Lines) != 1 || replies[0].Lines[0] != want {
+						res.Finding = h.F(prefix+"-challenge-differs", "%s: the 334 reply carries %q, the mechanism's challenge %q encodes to %q", desc, replies[0].Lines, alt.Challenge, want)
+						res.FailedAt = hi
+						break cmds
+					}
+				}
 				// message completion: what did the backend actually read?
 				if alt.MsgVerdict != "" {
 					if f := checkDelivered(prefix, desc, be, c, st, alt); f != nil {
@@ -389,9 +449,12 @@ func runLockstep(prefix string, pc ref.PConfig, alpha []ref.Cmd, hist []int) *hi
 		res.Model = st
 		res.Key = canonImplState(pc, live.State()) + " || " + canonModelState(pc, st)
 		res.Closed = live.Done
-		if st.Closed != live.Done && res.Finding == nil {
+		if st.Closed != live.Done && res.Finding == nil && !(opts != nil && opts.HandshakeFailed) {
 			res.Finding = h.F(prefix+"-closed-mismatch", "history [%s]: model says closed=%t, the connection handler returned=%t", histNames(alpha, hist), st.Closed, live.Done)
 			res.FailedAt = len(hist) - 1
+		}
+		if opts != nil && opts.Final != nil {
+			opts.Final(live, be, st)
 		}
 		live.Hangup(h.TermEOF)
 		res.Sent = live.Sent
